@@ -1,4 +1,4 @@
-import KoordVerif.Proofs.C01ExtScale
+import KoordVerif.Proofs.C01ExtDeclared
 /-
 C01 — elastic-quota used/request accounting is exact over any event history.
 
@@ -46,6 +46,7 @@ Theorems (all for arbitrary states / trees / amounts / histories, no size bound)
      concurrently with handlers (they are atomic steps at quiescent points; sampled by the mgr harness' batches).
   T7 min-quota scaling (section "MIN-QUOTA SCALING"; Proofs/C01ExtScale.lean): `request_floor_ignores_scaled_min` — the
      request floor of a group that does not lend is its DECLARED min whatever RefreshRuntime did to AutoScaleMin;
+     `declared_min_is_last_applied`, `request_floor_is_last_declared_min` — "declared" = the last applied quota object;
      `request_floor_operand_iff`, `request_floor_scaled_counterexample` — no other operand keeps the equation.
 -/
 namespace KoordVerif.C01
@@ -338,6 +339,34 @@ theorem request_floor_ignores_scaled_min (ops : List XOp) (hp : PreAllF init (op
     ∀ m q, get? (xrun xinit ops).s m = some q → m ≠ rootName →
       q.request = if q.lend then q.childRequest else max q.childRequest q.min :=
   ⟨xrun_state ops xinit, request_floor_declared ops hp⟩
+
+/-- "DECLARED min" = the min of the last applied quota object (Proofs/C01ExtDeclared.lean): UpdateQuota(sp) — every
+branch: create, min/max update, re-parent, flag change with rebuild — leaves group sp.name with min = sp.min and
+lend = sp.lend and touches these fields of no other group; DeleteQuota(n) touches them for no other group; no pod
+operation and no rebuild touches them at all. -/
+theorem declared_min_is_last_applied (s : State) (op : Op) :
+    match op with
+    | .quota sp => declOf (step s op) sp.name = some (sp.min, sp.lend) ∧ ∀ m, m ≠ sp.name → declOf (step s op) m = declOf s m
+    | .delQuota n => ∀ m, m ≠ n → declOf (step s op) m = declOf s m
+    | _ => ∀ m, declOf (step s op) m = declOf s m :=
+  step_declared s op
+
+/-- …so, history level: if the last UpdateQuota / DeleteQuota for a group was UpdateQuota(sp) (`rest` holds no such
+operation for sp.name; any pod / quota / scale / total / refresh operations around it), the group exists at the end
+and reports request = childRequest if sp lends, max(childRequest, sp.min) if not — sp.min literally, whatever the
+refreshes installed as scaled min. -/
+theorem request_floor_is_last_declared_min (ops : List XOp) (pre rest : List Op) (sp : QSpec)
+    (hsplit : ops.filterMap XOp.acct? = pre ++ .quota sp :: rest) (hrest : ∀ op ∈ rest, NoTouch sp.name op)
+    (hp : PreAllF init (ops.filterMap XOp.acct?)) (hroot : sp.name ≠ rootName) :
+    ∃ q, get? (xrun xinit ops).s sp.name = some q ∧ q.min = sp.min ∧ q.lend = sp.lend ∧
+      q.request = if sp.lend then q.childRequest else max q.childRequest sp.min :=
+  request_floor_last_declared ops pre rest sp hsplit hrest hp hroot
+
+/-- non-vacuity: `scOps1` splits as [] ++ UpdateQuota(group 2: min 40, does not lend) :: [pod add] -/
+example : ∃ q, get? (xrun xinit scOps1).s 2 = some q ∧ q.min = 40 ∧ q.lend = false ∧
+    q.request = if false then q.childRequest else max q.childRequest 40 :=
+  request_floor_is_last_declared_min scOps1 [] [.podAdd 2 ⟨1, 5, false, false, false, false⟩] ⟨2, 1, false, false, 100, 40⟩
+    rfl (by intro op h; simp only [List.mem_cons, List.not_mem_nil, or_false] at h; subst h; trivial) scOps1_pre (by decide)
 
 /-- One iteration of the delta propagation with an ARBITRARY floor operand `f` (`reqNodeF`; `reqNodeF_declared`: the
 model is the instance f = declared min) re-establishes the property's request equation of a group that does not lend
